@@ -72,6 +72,8 @@ RULE = ("Cases are single calls of dfols.solve on random small problems (linear+
         "non-default argument or parameter and performed more than one objective evaluation.")
 
 CPU_NOEVAL_LIMIT = 6.0     # seconds of process CPU time without any objective evaluation -> hang
+TASK_TIMEOUT = 900          # wall seconds per task for harness.generic (a confirmed hang costs ~70 s of CPU)
+HANG_CONFIRM_FACTOR = 10   # a hang verdict is re-run with this many times the no-evaluation limit before it is reported
 CPU_TOTAL_LIMIT = 15.0     # seconds of process CPU time for one solve that keeps evaluating -> 'slow': abandoned, not judged
 
 
@@ -271,8 +273,9 @@ class _Watch(object):
     evaluating but needs more than CPU_TOTAL_LIMIT seconds is abandoned as 'slow' and not judged.  CPU time, not wall
     time, so that a loaded machine does not produce false alarms; does not touch the caller's SIGALRM."""
 
-    def __init__(self, counter):
+    def __init__(self, counter, total_limit=None):
         self.counter = counter
+        self.total_limit = CPU_TOTAL_LIMIT if total_limit is None else total_limit
 
     def __enter__(self):
         self.t0 = time.process_time()
@@ -283,7 +286,7 @@ class _Watch(object):
             if now - self.counter.last_cpu > CPU_NOEVAL_LIMIT:
                 raise _Hang('no objective evaluation for %.1f s of CPU time (after %d evaluations)'
                             % (now - self.counter.last_cpu, self.counter.calls))
-            if now - self.t0 > CPU_TOTAL_LIMIT:
+            if now - self.t0 > self.total_limit:
                 raise _Slow('%.1f s of CPU time in one solve (%d evaluations)' % (now - self.t0, self.counter.calls))
         self.old = signal.signal(signal.SIGPROF, handler)
         signal.setitimer(signal.ITIMER_PROF, 0.5, 0.5)
@@ -306,7 +309,22 @@ def _dfols_frame(tb):
 
 
 def run_case(case):
-    """one call of solve; returns a JSON-able outcome"""
+    """one call of solve; returns a JSON-able outcome.  A 'hang' verdict is confirmed by a second run with a ten times
+    longer no-evaluation limit: single steps with projections can legitimately burn several seconds of CPU (6.1 s was
+    measured for a 5-variable Dykstra case), and only a loop that never comes back is a hang."""
+    global CPU_NOEVAL_LIMIT
+    out = _run_case_once(case)
+    if out.get('kind') == 'hang':
+        saved = CPU_NOEVAL_LIMIT
+        CPU_NOEVAL_LIMIT = HANG_CONFIRM_FACTOR * saved
+        try:
+            out = _run_case_once(case, total_limit=HANG_CONFIRM_FACTOR * saved + CPU_TOTAL_LIMIT)
+        finally:
+            CPU_NOEVAL_LIMIT = saved
+    return out
+
+
+def _run_case_once(case, total_limit=None):
     counter = _Counter()
     objfun, x0, kw = build_call(case, counter)
     np.random.seed(case.get('seed', 0) % (2 ** 32))
@@ -316,7 +334,7 @@ def run_case(case):
         warnings.simplefilter('ignore')
         old_err = np.seterr(all='ignore')
         try:
-            with _Watch(counter), contextlib.redirect_stdout(buf):
+            with _Watch(counter, total_limit), contextlib.redirect_stdout(buf):
                 soln = dfols.solve(objfun, x0, **kw)
         except _Hang as ex:
             out.update(kind='hang', detail=str(ex), calls=counter.calls)
@@ -588,7 +606,11 @@ def context_for(key, rng, plain=False):
         ctx['up']['restarts.use_restarts'] = True
         if rng.random() < 0.5:
             prob['noise'] = float(0.01).hex()
-        if key.startswith('restarts.hard') or key in ('restarts.increase_npt', 'restarts.increase_npt_amt',
+        if key.startswith('restarts.soft'):
+            prob['noise'] = float(0.01).hex()       # a noisy objective makes the soft restarts actually happen
+            if rng.random() < 0.5:
+                ctx['up']['restarts.soft.move_xk'] = bool(rng.random() < 0.5)
+        elif key.startswith('restarts.hard') or key in ('restarts.increase_npt', 'restarts.increase_npt_amt',
                                                       'restarts.max_npt') or rng.random() < 0.3:
             ctx['up']['restarts.use_soft_restarts'] = False
             ctx['up']['restarts.increase_npt'] = True
@@ -657,6 +679,10 @@ def key_cases(key, rng, plain=False):
         if up is not None:
             good.append(('upper_boundary', up))
         good.append(('interior', interior_value(rng, key, ty, lo, up, default)))
+        if key == 'restarts.soft.num_geom_steps':
+            # the table has no upper bound: more geometry steps than there are interpolation points is legal
+            good.append(('more_than_points', npt + int(rng.integers(0, 4))))
+            good.append(('more_than_points', npt + int(rng.integers(1, 6))))
         bad.append(('below_lower', lo - 1))
         bad.append(('far_below_lower', lo - 1000))
         if up is not None:
